@@ -13,6 +13,7 @@
 # limitations under the License.
 
 
+from copy import copy
 from typing import List
 from typing import Tuple
 
@@ -152,6 +153,8 @@ class PerceptionEvaluationManager(_EvaluationMangerBase):
             **self.filtering_params,
         )
 
+        # NOTE: work on a shallow copy, the filtered list must not overwrite the objects of the loaded dataset
+        frame_ground_truth = copy(frame_ground_truth)
         frame_ground_truth.objects = filter_objects(
             objects=frame_ground_truth.objects,
             is_gt=True,
